@@ -14,7 +14,8 @@ Clauses (DESIGN §5 C15):
   r   `impl_refines_spec`, `cached_history_refines_spec`, `without_cache_deletion_stale`
                                               what every read returns (refinement Impl = Spec), also
                                               through the cached_property layer
-  a   `slot_transparency`, `slot_transparency_values`
+  a   `slot_transparency`, `slot_transparency_values`,
+      `preloads_taken_from_an_inversion_are_transparent`
   b   `history_preloads_unchanged`, `history_outputs_identical`, `outputs_independent_of_history`,
       `curvature_matrix_is_own_array`
   b'  `no_defensive_copy_breaks`, `snapshot_writes_into_preloaded_arrays`,
@@ -124,6 +125,24 @@ theorem slot_transparency (c : Cfg α) (E : Ext α) (p : Preloads α) (h : Heap 
   apply List.map_congr_left
   intro accs _
   exact tr_inversion hs hr accs
+
+/-- (a-use) The hypothesis of (a) is what the code's own outputs satisfy: a `Preloads` object whose
+    `operated_mapping_matrix`, `curvature_matrix`, `regularization_matrix` ARE the (cached) arrays of a
+    preload-free inversion object — after any reads of that object — is consistent, so every later
+    history sharing it reports what it reports without preloads and leaves those arrays alone. -/
+theorem preloads_taken_from_an_inversion_are_transparent (c : Cfg α) (E : Ext α) (h0 : Heap α)
+    (reads : List Access) (hr : Routes c E) (hist : List (List Access)) :
+    let st := (Impl.readAllCached c E Policy.repaired true (useWTilde c none) {} reads
+      { heap := h0, cache := fun _ => none }).1
+    (preloadsOf st).Below st.heap.size
+    ∧ (Impl.history c E Policy.repaired (preloadsOf st) hist st.heap).2
+        = (Impl.history c E Policy.repaired {} hist st.heap).2
+    ∧ (∀ r, r < st.heap.size →
+        (Impl.history c E Policy.repaired (preloadsOf st) hist st.heap).1.read r = st.heap.read r) := by
+  intro st
+  obtain ⟨hb, hs⟩ := preloadsOf_consistent c E (useWTilde c none) h0 st (cinv_after_reads c E h0 reads)
+  exact ⟨hb, slot_transparency c E (preloadsOf st) st.heap hb hs hr hist,
+    (history_preloads_unchanged c E (preloadsOf st) st.heap hb hist).1⟩
 
 omit [Add α] [OfNat α 0] in
 /-- (c0) The factory never selects the w-tilde formalism when the settings switch it off or when
@@ -280,6 +299,20 @@ theorem without_cache_deletion_stale :
         = [some [[9, 12], [10, 13], [9, 12]]]
     ∧ (Impl.historyCached toyCfg toyExt Policy.repaired false {} [reads] h).2
         = [some [[9, 12], [10, 13], [10, 13]]] := by
+  decide
+
+/-- (outside the property, recorded) The one aliasing hazard that remains is on the PRODUCING side:
+    a Preloads that stores the cached `curvature_matrix` array of an inversion object which has not yet
+    read its `curvature_reg_matrix` is overwritten with F + H when that object does so — the inversion
+    that *produced* the preload changes it, not one that uses it.  (`preloads.py` sets its slots from
+    fully evaluated fits, where this cannot happen.) -/
+theorem preload_taken_before_evaluation_is_overwritten_by_its_source :
+    let st := (Impl.readAllCached toyCfg toyExt Policy.repaired true false {}
+      [Access.curvatureMatrix] { heap := ⟨[]⟩, cache := fun _ => none }).1
+    let st' := (Impl.readAllCached toyCfg toyExt Policy.repaired true false {}
+      [Access.curvatureRegMatrix] st).1
+    (preloadsOf st).curvatureMatrix = some 1
+    ∧ st.heap.read 1 = [9, 12] ∧ st'.heap.read 1 = [10, 13] := by
   decide
 
 /-! ### non-vacuity: the hypotheses of (a), (c) are satisfiable with several slots filled -/
